@@ -1,0 +1,21 @@
+//go:build verif
+
+package index
+
+// More verification hooks for property C11. Not part of the normal build.
+
+// VerifC11DistanceIter builds a distanceHitIterator over two compressedPostingIterators on raw posting-list
+// bytes and returns first() after construction and after every next(limit).
+func VerifC11DistanceIter(blob1, blob2 []byte, distance uint32, limits []uint32) []uint32 {
+	it := &distanceHitIterator{
+		i1:       newCompressedPostingIterator(blob1, 0),
+		i2:       newCompressedPostingIterator(blob2, 0),
+		distance: distance,
+	}
+	out := []uint32{it.first()}
+	for _, l := range limits {
+		it.next(l)
+		out = append(out, it.first())
+	}
+	return out
+}
